@@ -41,7 +41,7 @@ PROPS = {
     ),
     'C04': dict(
         comps=[('res', LOOKUPS), 'keyset', 'mon_c04', 'api_map'], directed=['c04_alias_prefix'],
-        theorems=['C04_nodup', 'C04_outputs', 'C04_insert_returns_old', 'C04_step'],
+        theorems=['C04_nodup', 'C04_outputs', 'C04_insert_returns_old', 'C04_step', 'C04_monitor_sound'],
         assumptions=['hashbrown finds an entry iff present under any hash function when the same hash is presented as at insertion (its contract; exercised with 5 hashers incl. constant, and Borrow<KeyId> lookups)',
                      'after every step every key of the universe is looked up through contains/peek/peek_entry in borrowed and owned form and compared with the pointer walk (flag api_map)'],
     ),
@@ -52,7 +52,7 @@ PROPS = {
     ),
     'C06': dict(
         comps=['mon_c06', 'drop_once'],
-        theorems=['C06_step', 'C06_exactly_once', 'C06_no_leak_without_forget'],
+        theorems=['C06_step', 'C06_exactly_once', 'C06_no_leak_without_forget', 'C06_monitor_sound'],
         assumptions=['object identity = token carried by the instrumented key/value types; Drop logs the token'],
     ),
     'C07': dict(
